@@ -44,7 +44,7 @@ var Budget = func() time.Duration {
 	if ms, err := strconv.Atoi(os.Getenv("VERIF_C20_BUDGET_MS")); err == nil && ms > 0 {
 		return time.Duration(ms) * time.Millisecond
 	}
-	return 4 * time.Second
+	return 10 * time.Second
 }()
 
 // Normalise maps any string into the domain: valid UTF-8, at most MaxRunes.
